@@ -9,6 +9,11 @@ From Verif Require Import Val Tokenizer Expand IfScan MacroSpec ExpandProofs Mac
 From Verif Require Scope Context.
 Local Open Scope N_scope.
 
+Notation St i U B := {| input := i; ups := U; bottom := B |}.
+
+Section DL.
+Context `{DLM : Delims}.
+
 (* ---------------------------------------------------------------------------------------------- *)
 (* strings and names                                                                                *)
 
@@ -548,7 +553,6 @@ Qed.
 (* ---------------------------------------------------------------------------------------------- *)
 (* single steps of the engine                                                                       *)
 
-Notation St i U B := {| input := i; ups := U; bottom := B |}.
 
 Lemma step_plain nx g t r U B : is_elem t = false -> macro_name t = None ->
   iter_step nx g (St (t :: r) U B) = Ret (SYield t (St r U B)).
@@ -694,8 +698,25 @@ Proof.
 Qed.
 
 (* \def\zq..#1..#n{body} / \gdef.. : [body] any brace-balanced token list *)
-Lemma is_bgroup_param_text i n : Forall (fun t => is_bgroup t = false) (flat_map (fun i => [hash_tok; other (48 + N.of_nat i)]) (seq i n)).
-Proof. revert i. induction n as [|n IH]; intros i; cbn [seq flat_map app]; [constructor|]. constructor; [reflexivity|]. constructor; [reflexivity|apply IH]. Qed.
+Lemma dtok_other t : dtok_ok t = true -> exists c, t = other c /\ dchar c = true.
+Proof.
+  destruct t as [k x]. destruct x as [|c [|c' x]]; try discriminate. cbn [dtok_ok]. intros H. apply andb_true_iff in H as [Hk Hc].
+  apply N.eqb_eq in Hk. subst k. exists c. split; [reflexivity|exact Hc].
+Qed.
+Lemma dl_other np i : Forall (fun t => exists c, t = other c /\ dchar c = true) (dl np i).
+Proof.
+  pose proof (dl_ok np i) as H. induction (dl np i) as [|t l IH]; [constructor|]. cbn [forallb] in H. apply andb_true_iff in H as [H1 H2].
+  constructor; [now apply dtok_other|now apply IH].
+Qed.
+Definition ptext0 (np0 i n : nat) : list tok := flat_map (fun i => hash_tok :: other (48 + N.of_nat i) :: dl np0 i) (seq i n).
+Lemma ptext_Forall (P : tok -> Prop) np0 : P hash_tok -> (forall c, P (other c)) -> forall i n, Forall P (ptext0 np0 i n).
+Proof.
+  intros Hh Ho i n. unfold ptext0. revert i. induction n as [|n IH]; intros i; cbn [seq flat_map]; [constructor|].
+  constructor; [exact Hh|]. constructor; [apply Ho|]. apply Forall_app. split; [|apply IH].
+  eapply Forall_impl; [|apply dl_other]. intros t (c & -> & _). apply Ho.
+Qed.
+Lemma is_bgroup_param_text np0 i n : Forall (fun t => is_bgroup t = false) (ptext0 np0 i n).
+Proof. apply ptext_Forall; [reflexivity|intros c; reflexivity]. Qed.
 Lemma read_args_nobg l : forall acc rest, Forall (fun t => is_bgroup t = false) l ->
   read_args (l ++ bg :: rest) acc = (rev acc ++ l, bg :: rest).
 Proof.
@@ -703,8 +724,14 @@ Proof.
   - cbn [app read_args]. change (is_bgroup bg) with true. cbn iota. now rewrite app_nil_r.
   - inversion H as [|t' l' Ht Hl]; subst. cbn [app read_args]. rewrite Ht. rewrite IH by exact Hl. cbn [rev]. now rewrite <- app_assoc.
 Qed.
-Lemma has_nested_param_text i n : has_nested (flat_map (fun i => [hash_tok; other (48 + N.of_nat i)]) (seq i n)) = false.
-Proof. revert i. induction n as [|n IH]; intros i; [reflexivity|]. cbn [seq flat_map app has_nested]. change (is_param hash_tok) with true. cbn iota. change (is_param (other _)) with false. cbn iota. apply IH. Qed.
+Lemma has_nested_nop l r : Forall (fun t => is_param t = false) l -> has_nested (l ++ r) = has_nested r.
+Proof. induction 1 as [|t l Ht _ IH]; [reflexivity|]. cbn [app has_nested]. now rewrite Ht. Qed.
+Lemma has_nested_param_text np0 i n : has_nested (ptext0 np0 i n) = false.
+Proof.
+  unfold ptext0. revert i. induction n as [|n IH]; intros i; [reflexivity|]. cbn [seq flat_map app has_nested].
+  change (is_param hash_tok) with true. cbn iota. change (is_param (other _)) with false. cbn iota.
+  rewrite has_nested_nop; [apply IH|]. eapply Forall_impl; [|apply dl_other]. intros t (c & -> & _). reflexivity.
+Qed.
 Lemma ros_param_text np rest : read_optional_spaces (param_text np ++ bg :: rest) = param_text np ++ bg :: rest.
 Proof. destruct np; reflexivity. Qed.
 
@@ -715,7 +742,7 @@ Lemma def_invoke_text gl nm np body tl U B : depth_after body O = Some O ->
 Proof.
   intros Hb. unfold def_invoke, ros. cbn [input read_optional_spaces].
   change (is_space (esc (mname nm))) with false. cbn iota. unfold set_input. cbn [input ups bottom].
-  rewrite ros_param_text. unfold param_text. rewrite (read_args_nobg _ [] _ (is_bgroup_param_text 1 np)). cbn [rev app input ups bottom read_optional_spaces].
+  rewrite ros_param_text. change (param_text np) with (ptext0 np 1 np). rewrite (read_args_nobg _ [] _ (is_bgroup_param_text np 1 np)). cbn [rev app input ups bottom read_optional_spaces].
   change (is_space bg) with false. cbn iota.
   unfold read_token. change (is_bgroup bg) with true. cbn iota.
   rewrite (read_group_app body O [] (eg :: tl) O Hb). cbn [read_group]. change (is_bgroup eg) with false. change (is_egroup eg) with true. cbn iota.
@@ -1344,8 +1371,35 @@ Lemma print_newcommand g nm np d b :
   bg :: printb b ++ [eg].
 Proof. reflexivity. Qed.
 Definition opt_toks (o : option (list node)) : list tok := match o with Some x => lbr :: print x ++ [rbr] | None => [] end.
-Lemma print_call nm o a : print_node (NCall nm o a) = esc (mname nm) :: opt_toks o ++ print_args a.
+Definition print_dargs (n : nat) : nat -> list (list node) -> list tok :=
+  fix pd (i : nat) (l : list (list node)) {struct l} : list tok :=
+  match l with
+  | [] => []
+  | a :: r => match dl n i with [] => bg :: print a ++ eg :: pd (S i) r | d => print a ++ d ++ pd (S i) r end
+  end.
+Lemma print_dargs_cons n i a r : print_dargs n i (a :: r) =
+  match dl n i with [] => bg :: print a ++ eg :: print_dargs n (S i) r | d => print a ++ d ++ print_dargs n (S i) r end.
+Proof. reflexivity. Qed.
+Lemma print_dcall nm o a : print_node (NCall nm o a) = esc (mname nm) :: opt_toks o ++ print_dargs (length a) 1 a.
 Proof. destruct o; reflexivity. Qed.
+Lemma undelim_nil n j : undelim n = true -> (1 <= j <= n)%nat -> dl n j = [].
+Proof.
+  unfold undelim. intros H Hj. rewrite forallb_forall in H. specialize (H j). destruct (dl n j); [reflexivity|].
+  assert (Hin : In j (seq 1 n)) by (apply in_seq; lia). specialize (H Hin). discriminate H.
+Qed.
+Lemma print_dargs_plain n : forall l i, (forall j, (i <= j < i + length l)%nat -> dl n j = []) -> print_dargs n i l = print_args l.
+Proof.
+  induction l as [|a l IH]; intros i H; [reflexivity|]. rewrite print_dargs_cons. cbn [print_args]. rewrite (H i) by (cbn [length]; lia).
+  rewrite (IH (S i)); [reflexivity|]. intros j Hj. apply H. cbn [length]. lia.
+Qed.
+Lemma print_call nm o a : undelim (length a) = true -> print_node (NCall nm o a) = esc (mname nm) :: opt_toks o ++ print_args a.
+Proof.
+  intros Hu. rewrite print_dcall. rewrite (print_dargs_plain (length a) a 1); [reflexivity|]. intros j Hj. apply (undelim_nil _ _ Hu). lia.
+Qed.
+Lemma dl_ktok n i : Forall (fun t => classify t = KTok 0%Z) (dl n i).
+Proof. eapply Forall_impl; [|apply dl_other]. intros t (c & -> & _). apply classify_other. Qed.
+Lemma dl_flat n i : Forall flat (dl n i).
+Proof. eapply Forall_impl; [|apply dl_other]. intros t (c & -> & _). split; reflexivity. Qed.
 (* words only: optional arguments and defaults *)
 Lemma words_print x : forallb is_word x = true -> exists ws, print x = flat_map wprint ws.
 Proof.
@@ -1364,11 +1418,8 @@ Proof. reflexivity. Qed.
 
 Lemma walks_list l : Forall (fun x => forall k, walks (print_node x) k k) l -> forall k, walks (print l) k k.
 Proof. induction 1 as [|x l Hx _ IH]; intros k; [apply walks_nil|]. cbn [print]. eapply walks_app; [apply Hx|apply IH]. Qed.
-Lemma walks_param_text i n k : walks (flat_map (fun i => [hash_tok; other (48 + N.of_nat i)]) (seq i n)) k k.
-Proof.
-  apply walks_toks. revert i. induction n as [|n IH]; intros i; cbn [seq flat_map app]; [constructor|].
-  constructor; [reflexivity|]. constructor; [reflexivity|apply IH].
-Qed.
+Lemma walks_param_text np0 i n k : walks (ptext0 np0 i n) k k.
+Proof. apply walks_toks. apply ptext_Forall; [reflexivity|intros c; apply classify_other]. Qed.
 
 Lemma ktok_cname_arg c : Forall (fun t => classify t = KTok 0%Z) (cname_arg c).
 Proof. unfold cname_arg. constructor; [reflexivity|]. apply Forall_app. split; [apply Forall_map_tok; intros x; reflexivity|constructor; [reflexivity|constructor]]. Qed.
@@ -1419,11 +1470,8 @@ Proof.
   rewrite depth_after_app, (depth_words x d H). reflexivity.
 Qed.
 
-Lemma flat_param_text i n : Forall flat (flat_map (fun i => [hash_tok; other (48 + N.of_nat i)]) (seq i n)).
-Proof.
-  revert i. induction n as [|n IH]; intros i; cbn [seq flat_map app]; [constructor|].
-  constructor; [split; reflexivity|]. constructor; [split; reflexivity|apply IH].
-Qed.
+Lemma flat_param_text np0 i n : Forall flat (ptext0 np0 i n).
+Proof. apply ptext_Forall; [split; reflexivity|intros c; split; reflexivity]. Qed.
 Lemma walks_or k : walks [esc s_or] (S k) (S k).
 Proof. intros tl cur done els. reflexivity. Qed.
 (* ---- body mode (printb): the same shape lemmas as for top mode ---- *)
@@ -1464,8 +1512,26 @@ Lemma printb_newcommand g nm np d b :
   bg :: printb b ++ [eg].
 Proof. reflexivity. Qed.
 Definition opt_toksb (o : option (list node)) : list tok := match o with Some x => lbr :: printb x ++ [rbr] | None => [] end.
-Lemma printb_call nm o a : printb_node (NCall nm o a) = esc (mname nm) :: opt_toksb o ++ printb_args a.
+Definition printb_dargs (n : nat) : nat -> list (list node) -> list tok :=
+  fix pd (i : nat) (l : list (list node)) {struct l} : list tok :=
+  match l with
+  | [] => []
+  | a :: r => match dl n i with [] => bg :: printb a ++ eg :: pd (S i) r | d => printb a ++ d ++ pd (S i) r end
+  end.
+Lemma printb_dargs_cons n i a r : printb_dargs n i (a :: r) =
+  match dl n i with [] => bg :: printb a ++ eg :: printb_dargs n (S i) r | d => printb a ++ d ++ printb_dargs n (S i) r end.
+Proof. reflexivity. Qed.
+Lemma printb_dcall nm o a : printb_node (NCall nm o a) = esc (mname nm) :: opt_toksb o ++ printb_dargs (length a) 1 a.
 Proof. destruct o; reflexivity. Qed.
+Lemma printb_dargs_plain n : forall l i, (forall j, (i <= j < i + length l)%nat -> dl n j = []) -> printb_dargs n i l = printb_args l.
+Proof.
+  induction l as [|a l IH]; intros i H; [reflexivity|]. rewrite printb_dargs_cons. cbn [printb_args]. rewrite (H i) by (cbn [length]; lia).
+  rewrite (IH (S i)); [reflexivity|]. intros j Hj. apply H. cbn [length]. lia.
+Qed.
+Lemma printb_call nm o a : undelim (length a) = true -> printb_node (NCall nm o a) = esc (mname nm) :: opt_toksb o ++ printb_args a.
+Proof.
+  intros Hu. rewrite printb_dcall. rewrite (printb_dargs_plain (length a) a 1); [reflexivity|]. intros j Hj. apply (undelim_nil _ _ Hu). lia.
+Qed.
 Lemma words_printb x : forallb is_word x = true -> exists ws, printb x = flat_map wprint ws.
 Proof.
   induction x as [|n x IH]; intros H; [exists []; reflexivity|]. cbn [forallb] in H. apply andb_true_iff in H as [H1 H2].
@@ -1504,6 +1570,23 @@ Proof.
   induction 1 as [|b r Hb _ IH]; [apply walks_nil|]. cbn [printb_ors]. change (esc s_or :: ?l) with ([esc s_or] ++ l).
   eapply walks_app; [apply walks_or|]. eapply walks_app; [now apply walks_listb|exact IH].
 Qed.
+Lemma walks_dargsb n : forall l i k, Forall (fun x => forall k, walks (printb x) k k) l -> walks (printb_dargs n i l) k k.
+Proof.
+  induction l as [|a l IH]; intros i k H; [apply walks_nil|]. inversion H as [|x y Ha Hl]; subst. rewrite printb_dargs_cons.
+  pose proof (dl_ktok n i) as Hd. destruct (dl n i) as [|t d].
+  - change (bg :: ?l) with ([bg] ++ l). eapply walks_app; [apply walks_tok; reflexivity|].
+    eapply walks_app; [apply Ha|]. change (eg :: ?l) with ([eg] ++ l).
+    eapply walks_app; [apply walks_tok; reflexivity|now apply IH].
+  - eapply walks_app; [apply Ha|]. eapply walks_app; [now apply walks_toks|now apply IH].
+Qed.
+Lemma depth_dargsb n : forall l i d, Forall (fun x => forall d, depth_after (printb x) d = Some d) l -> depth_after (printb_dargs n i l) d = Some d.
+Proof.
+  induction l as [|a l IH]; intros i d H; [reflexivity|]. inversion H as [|x y Ha Hl]; subst. rewrite printb_dargs_cons.
+  pose proof (dl_flat n i) as Hd. destruct (dl n i) as [|t d0].
+  - cbn [depth_after]. change (is_bgroup bg) with true. cbn iota. rewrite depth_after_app, Ha. cbn [depth_after].
+    change (is_bgroup eg) with false. change (is_egroup eg) with true. cbn iota. now apply IH.
+  - rewrite depth_after_app, Ha, depth_after_app, (depth_flat _ Hd). now apply IH.
+Qed.
 Lemma walks_Wb : forall x, w_node x = true -> forall k, walks (printb_node x) k k.
 Proof.
   apply (node_ind2 (fun x => w_node x = true -> forall k, walks (printb_node x) k k)).
@@ -1538,14 +1621,11 @@ Proof.
     + eapply walks_app; [apply walks_param_text2|]. change (bg :: ?l) with ([bg] ++ l).
       eapply walks_app; [apply walks_tok; reflexivity|]. eapply walks_app; [|apply walks_tok; reflexivity].
       apply walks_listb. now apply (Forall_forallb w_node).
-  - intros nm o a IH H k. cbn [w_node] in H. apply andb_true_iff in H as [Ho H]. rewrite printb_call.
+  - intros nm o a IH H k. cbn [w_node] in H. apply andb_true_iff in H as [Ho H]. rewrite printb_dcall.
     change (?x :: ?l) with ([x] ++ l). eapply walks_app; [apply walks_tok; reflexivity|].
     eapply walks_app; [now apply walks_optb|].
     pose proof (Forall2_forallb w_node _ a IH H) as Ha. clear IH H.
-    induction Ha as [|arg a Harg _ IHa]; [apply walks_nil|]. cbn [printb_args].
-    change (bg :: ?l) with ([bg] ++ l). eapply walks_app; [apply walks_tok; reflexivity|].
-    eapply walks_app; [now apply walks_listb|]. change (eg :: ?l) with ([eg] ++ l).
-    eapply walks_app; [apply walks_tok; reflexivity|exact IHa].
+    apply walks_dargsb. eapply Forall_impl; [|exact Ha]. intros l Hl k0. now apply walks_listb.
   - intros t th el IHth IHel H k. cbn [w_node] in H. apply andb_true_iff in H as [H He]. apply andb_true_iff in H as [Ht Hth].
     rewrite printb_cond. eapply walks_app; [now apply walks_test2|].
     eapply walks_app; [apply walks_listb; now apply (Forall_forallb w_node)|].
@@ -1604,13 +1684,11 @@ Proof.
     rewrite depth_after_app. unfold param_text2. rewrite (depth_flat _ (flat_param_text2 1 np)).
     cbn [depth_after]. change (is_bgroup bg) with true. cbn iota.
     rewrite depth_after_app, (depth_listb b (Forall_forallb w_node _ b IH H)). reflexivity.
-  - intros nm o a IH H d. cbn [w_node] in H. apply andb_true_iff in H as [Ho H]. rewrite printb_call.
+  - intros nm o a IH H d. cbn [w_node] in H. apply andb_true_iff in H as [Ho H]. rewrite printb_dcall.
     cbn [depth_after]. change (is_bgroup (esc (mname nm))) with false. change (is_egroup (esc (mname nm))) with false. cbn iota.
     rewrite depth_after_app, (depth_optb o d Ho).
-    pose proof (Forall2_forallb w_node _ a IH H) as Ha. clear IH H. revert d.
-    induction Ha as [|arg a Harg _ IHa]; intros d; [reflexivity|]. cbn [printb_args depth_after].
-    change (is_bgroup bg) with true. cbn iota. rewrite depth_after_app, (depth_listb arg Harg). cbn [depth_after].
-    change (is_bgroup eg) with false. change (is_egroup eg) with true. cbn iota. apply IHa.
+    pose proof (Forall2_forallb w_node _ a IH H) as Ha. clear IH H.
+    apply depth_dargsb. eapply Forall_impl; [|exact Ha]. intros l Hl d0. now apply depth_listb.
   - intros t th el IHth IHel H d. cbn [w_node] in H. apply andb_true_iff in H as [H He]. apply andb_true_iff in H as [Ht Hth].
     rewrite printb_cond.
     rewrite depth_after_app, (depth_test t), depth_after_app, (depth_listb th (Forall_forallb w_node _ th IHth Hth)), depth_after_app.
@@ -1642,6 +1720,23 @@ Proof.
   eapply walks_app; [apply walks_or|]. eapply walks_app; [now apply walks_list|exact IH].
 Qed.
 
+Lemma walks_dargs n : forall l i k, Forall (fun x => forall k, walks (print x) k k) l -> walks (print_dargs n i l) k k.
+Proof.
+  induction l as [|a l IH]; intros i k H; [apply walks_nil|]. inversion H as [|x y Ha Hl]; subst. rewrite print_dargs_cons.
+  pose proof (dl_ktok n i) as Hd. destruct (dl n i) as [|t d].
+  - change (bg :: ?l) with ([bg] ++ l). eapply walks_app; [apply walks_tok; reflexivity|].
+    eapply walks_app; [apply Ha|]. change (eg :: ?l) with ([eg] ++ l).
+    eapply walks_app; [apply walks_tok; reflexivity|now apply IH].
+  - eapply walks_app; [apply Ha|]. eapply walks_app; [now apply walks_toks|now apply IH].
+Qed.
+Lemma depth_dargs n : forall l i d, Forall (fun x => forall d, depth_after (print x) d = Some d) l -> depth_after (print_dargs n i l) d = Some d.
+Proof.
+  induction l as [|a l IH]; intros i d H; [reflexivity|]. inversion H as [|x y Ha Hl]; subst. rewrite print_dargs_cons.
+  pose proof (dl_flat n i) as Hd. destruct (dl n i) as [|t d0].
+  - cbn [depth_after]. change (is_bgroup bg) with true. cbn iota. rewrite depth_after_app, Ha. cbn [depth_after].
+    change (is_bgroup eg) with false. change (is_egroup eg) with true. cbn iota. now apply IH.
+  - rewrite depth_after_app, Ha, depth_after_app, (depth_flat _ Hd). now apply IH.
+Qed.
 Lemma walks_W : forall x, w_node x = true -> forall k, walks (print_node x) k k.
 Proof.
   apply (node_ind2 (fun x => w_node x = true -> forall k, walks (print_node x) k k)).
@@ -1673,17 +1768,14 @@ Proof.
     rewrite print_def.
     change (?a :: ?b' :: ?l) with ([a; b'] ++ l). eapply walks_app.
     + apply walks_toks. constructor; [destruct g; reflexivity|]. constructor; [reflexivity|constructor].
-    + eapply walks_app; [apply walks_param_text|]. change (bg :: ?l) with ([bg] ++ l).
+    + eapply walks_app; [apply (walks_param_text np 1 np)|]. change (bg :: ?l) with ([bg] ++ l).
       eapply walks_app; [apply walks_tok; reflexivity|]. eapply walks_app; [|apply walks_tok; reflexivity].
       apply walks_Wlb. exact H.
-  - intros nm o a IH H k. cbn [w_node] in H. apply andb_true_iff in H as [Ho H]. rewrite print_call.
+  - intros nm o a IH H k. cbn [w_node] in H. apply andb_true_iff in H as [Ho H]. rewrite print_dcall.
     change (?x :: ?l) with ([x] ++ l). eapply walks_app; [apply walks_tok; reflexivity|].
     eapply walks_app; [now apply walks_opt|].
     pose proof (Forall2_forallb w_node _ a IH H) as Ha. clear IH H.
-    induction Ha as [|arg a Harg _ IHa]; [apply walks_nil|]. cbn [print_args].
-    change (bg :: ?l) with ([bg] ++ l). eapply walks_app; [apply walks_tok; reflexivity|].
-    eapply walks_app; [now apply walks_list|]. change (eg :: ?l) with ([eg] ++ l).
-    eapply walks_app; [apply walks_tok; reflexivity|exact IHa].
+    apply walks_dargs. eapply Forall_impl; [|exact Ha]. intros l Hl k0. now apply walks_list.
   - intros t th el IHth IHel H k. cbn [w_node] in H. apply andb_true_iff in H as [H He]. apply andb_true_iff in H as [Ht Hth].
     rewrite print_cond. eapply walks_app; [now apply walks_test2|].
     eapply walks_app; [apply walks_list; now apply (Forall_forallb w_node)|].
@@ -1742,16 +1834,14 @@ Proof.
     change (?a :: ?b' :: ?l) with ([a; b'] ++ l). rewrite depth_after_app.
     rewrite (depth_flat [esc (if g then s_gdef else s_def); esc (mname nm)]) by
       (constructor; [destruct g; split; reflexivity|]; constructor; [split; reflexivity|constructor]).
-    rewrite depth_after_app. unfold param_text. rewrite (depth_flat _ (flat_param_text 1 np)).
+    rewrite depth_after_app. change (param_text np) with (ptext0 np 1 np). rewrite (depth_flat _ (flat_param_text np 1 np)).
     cbn [depth_after]. change (is_bgroup bg) with true. cbn iota.
     rewrite depth_after_app, (depth_Wlb b H). reflexivity.
-  - intros nm o a IH H d. cbn [w_node] in H. apply andb_true_iff in H as [Ho H]. rewrite print_call.
+  - intros nm o a IH H d. cbn [w_node] in H. apply andb_true_iff in H as [Ho H]. rewrite print_dcall.
     cbn [depth_after]. change (is_bgroup (esc (mname nm))) with false. change (is_egroup (esc (mname nm))) with false. cbn iota.
     rewrite depth_after_app, (depth_opt o d Ho).
-    pose proof (Forall2_forallb w_node _ a IH H) as Ha. clear IH H. revert d.
-    induction Ha as [|arg a Harg _ IHa]; intros d; [reflexivity|]. cbn [print_args depth_after].
-    change (is_bgroup bg) with true. cbn iota. rewrite depth_after_app, (depth_list arg Harg). cbn [depth_after].
-    change (is_bgroup eg) with false. change (is_egroup eg) with true. cbn iota. apply IHa.
+    pose proof (Forall2_forallb w_node _ a IH H) as Ha. clear IH H.
+    apply depth_dargs. eapply Forall_impl; [|exact Ha]. intros l Hl d0. now apply depth_list.
   - intros t th el IHth IHel H d. cbn [w_node] in H. apply andb_true_iff in H as [H He]. apply andb_true_iff in H as [Ht Hth].
     rewrite print_cond.
     rewrite depth_after_app, (depth_test t), depth_after_app, (depth_list th (Forall_forallb w_node _ th IHth Hth)), depth_after_app.
@@ -1801,7 +1891,7 @@ Proof.
   - intros b IH H. cbn [fa_node w_node] in *. now apply (forallb_imp fa_node).
   - intros g nm np d b IH H. cbn [fa_node w_node] in *. apply andb_true_iff in H as [H Hb]. apply andb_true_iff in H as [_ Hd].
     destruct d; [discriminate Hd|]. cbn [opt_ok andb]. now apply (forallb_imp fa_node).
-  - intros nm o a IH H. cbn [fa_node w_node] in *. apply andb_true_iff in H as [Ho Ha]. rewrite Ho. now apply (forallb2_imp fa_node).
+  - intros nm o a IH H. cbn [fa_node w_node] in *. apply andb_true_iff in H as [Ho Ha]. apply andb_true_iff in Ho as [_ Ho]. rewrite Ho. now apply (forallb2_imp fa_node).
   - intros t th el IHth IHel H. cbn [fa_node w_node] in *. apply andb_true_iff in H as [H He]. apply andb_true_iff in H as [Ht Hth].
     rewrite Ht, (forallb_imp fa_node w_node th IHth Hth). destruct el as [e|]; [|reflexivity].
     now apply (forallb_imp fa_node w_node e (IHel e eq_refl)).
@@ -1823,7 +1913,7 @@ Proof.
     destruct d as [|d]; [discriminate H|].
     apply (forallb_imp (fun y => fb_node n y d)); [|exact H]. eapply Forall_impl; [|exact IH]. intros y Hy. apply Hy.
   - intros nm o a IH d H. cbn [fb_node] in H. apply orb_true_iff in H as [Hfa|H]; [exact (fa_W _ Hfa)|].
-    cbn [w_node]. apply andb_true_iff in H as [H0 H]. rewrite H0. cbn [andb].
+    cbn [w_node]. apply andb_true_iff in H as [H0 H]. apply andb_true_iff in H0 as [_ H0]. rewrite H0. cbn [andb].
     clear H0. induction IH as [|arg a Harg _ IHa]; [reflexivity|]. cbn [forallb] in *. apply andb_true_iff in H as [H1 H2].
     apply andb_true_iff. split; [|now apply IHa]. destruct d as [|d]; [discriminate H1|].
     apply (forallb_imp (fun y => fb_node n y d)); [|exact H1]. eapply Forall_impl; [|exact Harg]. intros y Hy. apply Hy.
@@ -1854,7 +1944,7 @@ Proof.
   - intros b IH d H. cbn [fi_node w_node] in *. destruct d as [|d]; [discriminate H|].
     apply (forallb_imp (fun y => fi_node n m y d)); [|exact H]. eapply Forall_impl; [|exact IH]. intros y Hy. apply Hy.
   - intros g nm np dd b IH d H. discriminate H.
-  - intros nm o a IH d H. cbn [fi_node w_node] in *. apply andb_true_iff in H as [H0 H]. rewrite H0. cbn [andb].
+  - intros nm o a IH d H. cbn [fi_node w_node] in *. apply andb_true_iff in H as [H0 H]. apply andb_true_iff in H0 as [_ H0]. rewrite H0. cbn [andb].
     clear H0. induction IH as [|arg a Harg _ IHa]; [reflexivity|]. cbn [forallb] in *. apply andb_true_iff in H as [H1 H2].
     apply andb_true_iff. split; [|now apply IHa]. destruct d as [|d]; [discriminate H1|].
     apply (forallb_imp (fun y => fi_node n m y d)); [|exact H1]. eapply Forall_impl; [|exact Harg]. intros y Hy. apply Hy.
@@ -1883,8 +1973,8 @@ Lemma fb3_unfold n x d : fb3_node n x d =
       | O => false
       | S d' =>
           match dflt with
-          | None => Nat.leb 1 np && Nat.leb np 9 && forallb (fun y => fi_node n np y d') b
-          | Some dd => g && Nat.leb (S np) 9 && forallb is_word dd && forallb (fun y => fi_node n (S np) y d') b
+          | None => undelim np && Nat.leb 1 np && Nat.leb np 9 && forallb (fun y => fi_node n np y d') b
+          | Some dd => undelim np && g && Nat.leb (S np) 9 && forallb is_word dd && forallb (fun y => fi_node n (S np) y d') b
           end
       end
   | NCond t th el =>
@@ -1951,7 +2041,7 @@ Proof.
     + apply andb_true_iff in H as [_ Hb]. cbn [opt_ok andb].
       apply orb_true_iff in Hb as [Hb|Hb]; apply andb_true_iff in Hb as [_ Hb]; [now apply (fb3_Wl np BODY_DEPTH)|].
       apply orb_true_iff in Hb as [Hb|Hb]; [now apply fa_Wl|now apply fv_Wl].
-  - intros nm o a _ H. cbn [f2_node w_node] in *. apply andb_true_iff in H as [Ho Ha]. rewrite Ho.
+  - intros nm o a _ H. cbn [f2_node w_node] in *. apply andb_true_iff in H as [H _]. apply andb_true_iff in H as [Ho Ha]. rewrite Ho.
     apply (forallb2_imp fa_node); [|exact Ha]. apply Forall_forall. intros l _. apply Forall_forall. intros x _. apply fa_W.
   - intros t th el IHth IHel H. cbn [f2_node w_node] in *. apply andb_true_iff in H as [H He]. apply andb_true_iff in H as [Ht Hth].
     rewrite Ht, (forallb_imp f2_node w_node th IHth Hth). destruct el as [e|]; [|reflexivity].
@@ -1963,6 +2053,15 @@ Qed.
 Lemma f2_Wl l : forallb f2_node l = true -> forallb w_node l = true.
 Proof. apply forallb_imp. apply Forall_forall. intros x _. apply f2_W. Qed.
 
+Lemma dargs_ok_cons n i a r : dargs_ok n i (a :: r) = (match dl n i with [] => true | _ => forallb is_word a end) && dargs_ok n (S i) r.
+Proof. reflexivity. Qed.
+Lemma dargs_ok_plain n : forall l i, (forall j, (i <= j < i + length l)%nat -> dl n j = []) -> dargs_ok n i l = true.
+Proof.
+  induction l as [|a l IH]; intros i H; [reflexivity|]. rewrite dargs_ok_cons, (H i) by (cbn [length]; lia).
+  apply IH. intros j Hj. apply H. cbn [length]. lia.
+Qed.
+Lemma dargs_ok_undelim a : undelim (length a) = true -> dargs_ok (length a) 1 a = true.
+Proof. intros Hu. apply dargs_ok_plain. intros j Hj. apply (undelim_nil _ _ Hu). lia. Qed.
 Lemma fa_f2 : forall x, fa_node x = true -> f2_node x = true.
 Proof.
   apply (node_ind2 (fun x => fa_node x = true -> f2_node x = true)).
@@ -1970,7 +2069,7 @@ Proof.
   - intros b IH H. cbn [fa_node f2_node] in *. now apply (forallb_imp fa_node).
   - intros g nm np d b _ H. cbn [fa_node f2_node] in *. apply andb_true_iff in H as [H Hb]. apply andb_true_iff in H as [Hn Hd].
     destruct d; [discriminate Hd|]. rewrite Hn, Hb. apply Nat.eqb_eq in Hn. subst np. reflexivity.
-  - intros nm o a _ H. exact H.
+  - intros nm o a _ H. cbn [fa_node f2_node] in *. apply andb_true_iff in H as [H Ha]. apply andb_true_iff in H as [Hu Ho]. now rewrite Ho, Ha, (dargs_ok_undelim _ Hu).
   - intros t th el IHth IHel H. cbn [fa_node f2_node] in *. apply andb_true_iff in H as [H He]. apply andb_true_iff in H as [Ht Hth].
     rewrite Ht, (forallb_imp fa_node f2_node th IHth Hth). destruct el as [e|]; [|reflexivity].
     now apply (forallb_imp fa_node f2_node e (IHel e eq_refl)).
@@ -1997,7 +2096,7 @@ Proof.
   - now rewrite (IH body Hx).
   - apply andb_true_iff in Hx as [Hx Hb]. apply andb_true_iff in Hx as [_ Hd]. destruct default; [discriminate Hd|].
     cbn [option_map]. now rewrite (IH body Hb).
-  - apply andb_true_iff in Hx as [Ho Ha]. rewrite (map_id_forallb (lower k) (forallb fa_node) args IH Ha).
+  - apply andb_true_iff in Hx as [Ho Ha]. apply andb_true_iff in Ho as [_ Ho]. rewrite (map_id_forallb (lower k) (forallb fa_node) args IH Ha).
     destruct opt as [o|]; [|reflexivity]. cbn [option_map opt_ok] in *. now rewrite (IH o (words_fa o Ho)).
   - apply andb_true_iff in Hx as [Hx He]. apply andb_true_iff in Hx as [_ Hth]. rewrite (IH thn Hth).
     destruct els as [e|]; [|reflexivity]. cbn [option_map]. now rewrite (IH e He).
@@ -2015,7 +2114,7 @@ Proof.
   - now rewrite (IH body Hx).
   - apply andb_true_iff in Hx as [Hx Hb]. apply andb_true_iff in Hx as [_ Hd]. destruct default; [discriminate Hd|].
     cbn [option_map]. now rewrite (IH body Hb), (lower_A 50 body Hb).
-  - apply andb_true_iff in Hx as [Ho Ha]. rewrite (map_id_forallb (subst k args) (forallb fa_node) args0 IH Ha).
+  - apply andb_true_iff in Hx as [Ho Ha]. apply andb_true_iff in Ho as [_ Ho]. rewrite (map_id_forallb (subst k args) (forallb fa_node) args0 IH Ha).
     destruct opt as [o|]; [|reflexivity]. cbn [option_map opt_ok] in *. now rewrite (IH o (words_fa o Ho)).
   - apply andb_true_iff in Hx as [Hx He]. apply andb_true_iff in Hx as [_ Hth]. rewrite (IH thn Hth).
     destruct els as [e|]; [|reflexivity]. cbn [option_map]. now rewrite (IH e He).
@@ -2119,8 +2218,8 @@ Proof.
   - intros b IH H. cbn [fa_node] in H. rewrite printb_group, print_group, (printb_list b (Forall_forallb fa_node _ b IH H)). reflexivity.
   - intros g nm np d b IH H. cbn [fa_node] in H. apply andb_true_iff in H as [H Hb]. apply andb_true_iff in H as [Hn Hd].
     apply Nat.eqb_eq in Hn. subst np. destruct d; [discriminate Hd|]. rewrite printb_def, print_def. reflexivity.
-  - intros nm o a IH H. cbn [fa_node] in H. apply andb_true_iff in H as [Ho Ha].
-    rewrite printb_call, print_call, (opt_toksb_eq o Ho), (printb_args_eq a (Forall2_forallb fa_node _ a IH Ha)). reflexivity.
+  - intros nm o a IH H. cbn [fa_node] in H. apply andb_true_iff in H as [Ho Ha]. apply andb_true_iff in Ho as [Hu Ho].
+    rewrite (printb_call _ _ _ Hu), (print_call _ _ _ Hu), (opt_toksb_eq o Ho), (printb_args_eq a (Forall2_forallb fa_node _ a IH Ha)). reflexivity.
   - intros t th el IHth IHel H. cbn [fa_node] in H. apply andb_true_iff in H as [H He]. apply andb_true_iff in H as [Ht Hth].
     rewrite printb_cond, print_cond, (printb_list th (Forall_forallb fa_node _ th IHth Hth)).
     destruct el as [e|]; [|reflexivity]. now rewrite (printb_list e (Forall_forallb fa_node _ e (IHel e eq_refl) He)).
@@ -2143,7 +2242,7 @@ Proof.
     apply andb_true_iff in H as [H0 H]. apply andb_true_iff in H0 as [Hn Hd]. apply Nat.eqb_eq in Hn. subst np.
     destruct dd; [discriminate Hd|]. rewrite printb_def, print_def. reflexivity.
   - intros nm o a IH d H. cbn [fb_node] in H. apply orb_true_iff in H as [Hfa|H]; [exact (printb_A _ Hfa)|].
-    apply andb_true_iff in H as [Ho H]. rewrite printb_call, print_call, (opt_toksb_eq o Ho). f_equal. f_equal. clear Ho.
+    apply andb_true_iff in H as [Ho H]. apply andb_true_iff in Ho as [Hu Ho]. rewrite (printb_call _ _ _ Hu), (print_call _ _ _ Hu), (opt_toksb_eq o Ho). clear Hu. f_equal. f_equal. clear Ho.
     induction IH as [|arg a Harg _ IHa]; [reflexivity|]. cbn [forallb] in H. apply andb_true_iff in H as [H1 H2].
     cbn [printb_args print_args]. rewrite (IHa H2). destruct d as [|d]; [discriminate H1|].
     rewrite (printb_list arg (Forall_inst_fb (fb_node n) _ arg d Harg H1)). reflexivity.
@@ -2210,7 +2309,7 @@ Proof.
     change (param_text O) with (@nil tok). cbn [app].
     constructor; [destruct g; apply inert_esc; cbv; congruence|]. constructor; [apply inert_mname|]. constructor; [apply inert_bg|].
     apply Forall_app. split; [apply inert_list, (Forall_forallb fa_node _ b IH Hb)|constructor; [apply inert_eg|constructor]].
-  - intros nm o a IH H. cbn [fa_node] in H. apply andb_true_iff in H as [Ho Ha]. rewrite print_call.
+  - intros nm o a IH H. cbn [fa_node] in H. apply andb_true_iff in H as [Ho Ha]. apply andb_true_iff in Ho as [Hu Ho]. rewrite (print_call _ _ _ Hu).
     constructor; [apply inert_mname|]. apply Forall_app. split; [now apply inert_opt|]. apply inert_args, (Forall2_forallb fa_node _ a IH Ha).
   - intros t th el IHth IHel H. cbn [fa_node] in H. apply andb_true_iff in H as [H He]. apply andb_true_iff in H as [Ht Hth].
     rewrite print_cond. apply Forall_app. split; [apply inert_test|]. apply Forall_app.
@@ -2227,6 +2326,13 @@ Proof.
 Qed.
 Lemma xp_cons ps t P P' : inert t -> xp ps P P' -> xp ps (t :: P) (t :: P').
 Proof. intros Ht H. apply (xp_app ps [t] [t] P P'); [now apply xp_tok|exact H]. Qed.
+
+Lemma flat_map_ext_in {A B} (f g : A -> list B) l : (forall a, In a l -> f a = g a) -> flat_map f l = flat_map g l.
+Proof. induction l as [|x l IH]; intros H; [reflexivity|]. cbn [flat_map]. rewrite (H x (or_introl eq_refl)), IH; [reflexivity|]. intros a Ha. apply H. now right. Qed.
+Lemma param_text_plain np : undelim np = true -> param_text np = flat_map (fun i => [hash_tok; other (48 + N.of_nat i)]) (seq 1 np).
+Proof.
+  intros Hu. unfold param_text. apply flat_map_ext_in. intros i Hi. apply in_seq in Hi. now rewrite (undelim_nil np i Hu) by lia.
+Qed.
 
 (* ---- print (subst args body) = expandDef (print body) (map print args) ---- *)
 Section Subst.
@@ -2324,7 +2430,7 @@ Section Subst.
           constructor; [apply inert_bg|constructor].
         * apply xp_app; [exact H1|apply xp_tok, inert_eg].
       + cbn [forallb fa_node Nat.eqb is_none andb]. now rewrite H2.
-    - intros nm o a IH d H. cbn [fb_node] in H. apply orb_true_iff in H as [Hfa|H]; [exact (Q_fa _ d Hfa)|]. apply andb_true_iff in H as [Ho H].
+    - intros nm o a IH d H. cbn [fb_node] in H. apply orb_true_iff in H as [Hfa|H]; [exact (Q_fa _ d Hfa)|]. apply andb_true_iff in H as [Ho H]. apply andb_true_iff in Ho as [Hu Ho].
       assert (Hopt : option_map (subst d args) o = o).
       { destruct o as [ws|]; [|reflexivity]. cbn [option_map opt_ok] in *. f_equal. apply subst_A. now apply words_fa. }
       assert (Hoi : Forall inert (opt_toks o)).
@@ -2333,16 +2439,16 @@ Section Subst.
         destruct (words_print ws Ho) as (l & ->). clear. induction l as [|w l IHl]; [constructor|].
         cbn [flat_map]. apply Forall_app. split; [apply inert_wprint|exact IHl]. }
       assert (Ha : xp ps (print_args a) (print_args (map (subst d args) a)) /\ forallb (forallb fa_node) (map (subst d args) a) = true).
-      { clear Ho Hopt Hoi. induction IH as [|arg a Harg _ IHa]; [split; [apply xp_nil|reflexivity]|].
+      { clear Ho Hopt Hoi Hu. induction IH as [|arg a Harg _ IHa]; [split; [apply xp_nil|reflexivity]|].
         cbn [forallb] in H. apply andb_true_iff in H as [H1 H2]. destruct d as [|d]; [discriminate H1|].
         destruct (Q_list arg d Harg H1) as [Q1 Q2]. destruct (IHa H2) as [I1 I2].
         cbn [map print_args forallb]. rewrite Q2, I2. split; [|reflexivity].
         change (bg :: ?l) with ([bg] ++ l). apply xp_app; [apply xp_tok, inert_bg|].
         apply xp_app; [exact Q1|]. change (eg :: ?l) with ([eg] ++ l). apply xp_app; [apply xp_tok, inert_eg|exact I1]. }
       destruct Ha as [A1 A2]. split.
-      + unfold sbn. rewrite Hopt. cbn [print]. rewrite !print_call, app_nil_r. change (?x :: ?l) with ([x] ++ l).
+      + unfold sbn. rewrite Hopt. cbn [print]. rewrite (print_call _ _ _ Hu), (print_call _ _ (map (subst d args) a)) by (now rewrite map_length). rewrite app_nil_r. change (?x :: ?l) with ([x] ++ l).
         apply xp_app; [apply xp_tok, inert_mname|]. apply xp_app; [now apply xp_toks|exact A1].
-      + unfold sbn. rewrite Hopt. cbn [forallb fa_node andb]. now rewrite Ho, A2.
+      + unfold sbn. rewrite Hopt. cbn [forallb fa_node andb]. rewrite map_length. now rewrite Hu, Ho, A2.
     - intros t th el IHth IHel d H. cbn [fb_node] in H. apply orb_true_iff in H as [Hfa|H]; [exact (Q_fa _ d Hfa)|]. apply andb_true_iff in H as [Ht H]. destruct d as [|d]; [discriminate H|].
       apply andb_true_iff in H as [Hth He]. destruct (Q_list th d IHth Hth) as [T1 T2].
       assert (E : xp ps (else_part el) (else_part (option_map (subst (S d) args) el)) /\
@@ -2483,7 +2589,7 @@ Section Subst.
         apply X_cons; [apply inert_bg|]. apply X_app; [exact H1|apply X_tok, inert_eg].
       + cbn [sbn map low1 forallb]. rewrite andb_true_r. cbn [fb_node]. apply orb_true_iff. right. exact H2.
     - intros g nm np dd b IH d H. discriminate H.
-    - intros nm o a IH d H j D Hj HD. cbn [fi_node] in H. apply andb_true_iff in H as [Ho H].
+    - intros nm o a IH d H j D Hj HD. cbn [fi_node] in H. apply andb_true_iff in H as [Ho H]. apply andb_true_iff in Ho as [Hu Ho].
       assert (Hopt : option_map (lower j) (option_map (subst d args) o) = o).
       { destruct o as [ws|]; [|reflexivity]. cbn [option_map opt_ok] in *. f_equal.
         rewrite (subst_A d args ws (words_fa ws Ho)). apply lower_A. now apply words_fa. }
@@ -2491,16 +2597,16 @@ Section Subst.
       assert (Ha : X (printb_args a) (printb_args (map (lower j) (map (subst d args) a))) /\
                    forallb (fun arg => match D with O => false | S D' => forallb (fun y => fb_node m y D') arg end)
                            (map (lower j) (map (subst d args) a)) = true).
-      { clear Ho Hopt Hoi. induction IH as [|arg a Harg _ IHa]; [split; [apply X_nil|reflexivity]|].
+      { clear Ho Hopt Hoi Hu. induction IH as [|arg a Harg _ IHa]; [split; [apply X_nil|reflexivity]|].
         cbn [forallb] in H. apply andb_true_iff in H as [H1 H2]. destruct (IHa H2) as [I1 I2].
         destruct d as [|d]; [discriminate H1|]. destruct j as [|j]; [lia|]. destruct D as [|D]; [lia|].
         destruct (QI_list m arg d Harg H1 j D ltac:(lia) ltac:(lia)) as [Q1 Q2].
         cbn [map printb_args forallb]. rewrite Q2, I2. split; [|reflexivity].
         apply X_cons; [apply inert_bg|]. apply X_app; [exact Q1|]. apply X_cons; [apply inert_eg|exact I1]. }
       destruct Ha as [A1 A2]. split.
-      + cbn [sbn map low1 printb]. rewrite Hopt, app_nil_r, !printb_call.
+      + cbn [sbn map low1 printb]. rewrite Hopt, app_nil_r. rewrite (printb_call _ _ _ Hu), (printb_call _ _ (map (lower j) (map (subst d args) a))) by (now rewrite !map_length).
         apply X_cons; [apply inert_mname|]. apply X_app; [now apply X_toks|exact A1].
-      + cbn [sbn map low1 forallb]. rewrite Hopt, andb_true_r. cbn [fb_node]. apply orb_true_iff. right. rewrite Ho. exact A2.
+      + cbn [sbn map low1 forallb]. rewrite Hopt, andb_true_r. cbn [fb_node]. apply orb_true_iff. right. rewrite !map_length, Hu, Ho. exact A2.
     - intros t th el IHth IHel d H j D Hj HD. cbn [fi_node] in H. apply andb_true_iff in H as [Ht H]. destruct d as [|d]; [discriminate H|].
       destruct j as [|j]; [lia|]. destruct D as [|D]; [lia|].
       apply andb_true_iff in H as [Hth He]. destruct (QI_list m th d IHth Hth j D ltac:(lia) ltac:(lia)) as [T1 T2].
@@ -2578,7 +2684,7 @@ Section Subst.
       + cbn [sbn forallb f2_node]. rewrite andb_true_r. exact H2.
     - intros g nm np dd b _ d Hd H. rewrite fb3_unfold in H. apply orb_true_iff in H as [H|H]; [exact (Q3_fb _ _ H)|].
       apply andb_true_iff in H as [Hn1 H]. destruct d as [|d]; [discriminate H|]. unfold BODY_DEPTH in Hd. destruct dd as [dd|].
-      + apply andb_true_iff in H as [H Hb]. apply andb_true_iff in H as [H Hw]. apply andb_true_iff in H as [Hg H9].
+      + apply andb_true_iff in H as [H Hb]. apply andb_true_iff in H as [H Hw]. apply andb_true_iff in H as [Hg H9]. apply andb_true_iff in Hg as [Hu Hg].
         destruct (QI_list (xp ps) XH_xp (S np) b d (proj2 (Forall_forall _ _) (fun y _ => QI_all (xp ps) XH_xp (S np) y)) Hb 49%nat BODY_DEPTH ltac:(lia) ltac:(unfold BODY_DEPTH; lia)) as [B1 B2].
         unfold Q3. cbn [sbn option_map]. rewrite (subst_A (S d) args dd (words_fa dd Hw)). split.
         * cbn [print]. rewrite app_nil_r, printb_newcommand, print_newcommand, (printb_words dd Hw).
@@ -2589,11 +2695,11 @@ Section Subst.
           apply xp_app; [apply xp_toks; now apply inert_words|].
           apply xp_cons; [apply inert_other|]. apply xp_cons; [apply inert_bg|].
           apply xp_app; [exact B1|apply xp_tok, inert_eg].
-        * cbn [forallb f2_node]. rewrite andb_true_r, Hg, H9, Hw. cbn [andb]. now apply fb_fb3l.
-      + apply andb_true_iff in H as [H Hb]. apply andb_true_iff in H as [H1 H9].
+        * cbn [forallb f2_node]. rewrite andb_true_r, Hu, Hg, H9, Hw. cbn [andb]. now apply fb_fb3l.
+      + apply andb_true_iff in H as [H Hb]. apply andb_true_iff in H as [H1 H9]. apply andb_true_iff in H1 as [Hu H1].
         destruct (QI_list (xp ps) XH_xp np b d (proj2 (Forall_forall _ _) (fun y _ => QI_all (xp ps) XH_xp np y)) Hb 49%nat BODY_DEPTH ltac:(lia) ltac:(unfold BODY_DEPTH; lia)) as [B1 B2].
         unfold Q3. cbn [sbn option_map]. split.
-        * cbn [print]. rewrite app_nil_r, printb_def, print_def.
+        * cbn [print]. rewrite app_nil_r, printb_def, print_def, (param_text_plain np Hu).
           apply xp_cons; [destruct g; apply inert_esc; cbv; congruence|]. apply xp_cons; [apply inert_mname|].
           apply xp_app; [apply xp_ptext2|]. apply xp_cons; [apply inert_bg|].
           apply xp_app; [exact B1|apply xp_tok, inert_eg].
@@ -2665,7 +2771,7 @@ Proof.
   cbn [flat_map]. rewrite (IHl Hl).
   destruct x; try discriminate Hx; try reflexivity; cbn [fi_node] in Hx.
   - destruct d as [|d]; [discriminate Hx|]. now rewrite (IH body d Hx).
-  - apply andb_true_iff in Hx as [Ho Ha].
+  - apply andb_true_iff in Hx as [Ho Ha]. apply andb_true_iff in Ho as [_ Ho].
     assert (E : map (subst k args) args0 = args0).
     { clear Ho. induction args0 as [|a0 r IHr]; [reflexivity|]. cbn [forallb] in Ha. apply andb_true_iff in Ha as [H1 H2].
       cbn [map]. rewrite (IHr H2). destruct d as [|d]; [discriminate H1|]. now rewrite (IH a0 d H1). }
@@ -2689,9 +2795,10 @@ Proof.
   rewrite (subst_fi0 [] np (S BODY_DEPTH) b BODY_DEPTH H) in H1, H2. split; [|exact H2].
   specialize (H1 [] []). rewrite !app_nil_r in H1. rewrite H1. cbn [reduce_hashes]. apply rev_involutive.
 Qed.
-Lemma rh_ptext np : reduce_hashes (param_text2 np) O [] = param_text np.
+Lemma rh_ptext np : undelim np = true -> reduce_hashes (param_text2 np) O [] = param_text np.
 Proof.
-  pose proof (X_ptext2 [] O rh XH_rh 1 np [] []) as H. rewrite !app_nil_r in H. unfold param_text2, param_text. rewrite H.
+  intros Hu. rewrite (param_text_plain np Hu).
+  pose proof (X_ptext2 [] O rh XH_rh 1 np [] []) as H. rewrite !app_nil_r in H. unfold param_text2. rewrite H.
   cbn [reduce_hashes]. apply rev_involutive.
 Qed.
 
@@ -2706,37 +2813,76 @@ Proof.
   change (is_bgroup eg) with false. change (is_egroup eg) with true. cbn iota. now rewrite app_nil_r, rev_involutive.
 Qed.
 
-Lemma match_ptext m : forall i params a0 args rest,
-  depth_after (print a0) O = Some O -> Forall (fun a => depth_after (print a) O = Some O) args ->
-  length args = m -> (i + m <= 10)%nat ->
-  match_pattern (ptext i m) false true params (bg :: print a0 ++ eg :: print_args args ++ rest)
-  = MOk (rev params ++ Some (print a0) :: map Some (map print args)) rest.
+Definition pendB (p : option (list tok)) : list tok := match p with Some a => bg :: a ++ [eg] | None => [] end.
+Definition pendokB (p : option (list tok)) : Prop := match p with Some a => depth_after a O = Some O | None => True end.
+Lemma nd_wprint w c : forallb (fun t => negb (tok_eqb t (other c))) (wprint w) = true.
 Proof.
-  induction m as [|m IH]; intros i params a0 args rest H0 Hargs Hlen Hi.
-  - destruct args; [|discriminate Hlen]. cbn [ptext seq flat_map match_pattern print_args app].
-    rewrite (read_argument_bg _ _ H0). cbn [rev map]. reflexivity.
-  - destruct args as [|a1 args]; [discriminate Hlen|]. inversion Hargs as [|x l H1 Hrest]; subst.
-    cbn [ptext seq flat_map app match_pattern]. change (is_param hash_tok) with true. cbn iota.
-    cbn [print_args app]. rewrite (read_argument_bg _ _ H0).
-    change (other (48 + N.of_nat i)) with (digit_tok i). rewrite (digit_of_digit i) by lia.
-    fold (ptext (S i) m). rewrite <- app_assoc. cbn [app].
-    rewrite (IH (S i) (Some (print a0) :: params) a1 args rest H1 Hrest); [|cbn in Hlen; lia|lia].
-    cbn [rev map]. now rewrite <- app_assoc.
+  unfold wprint. cbn [forallb]. rewrite forallb_app. change (negb (tok_eqb (letter 87) (other c))) with true. cbn [andb forallb].
+  change (negb (tok_eqb sp (other c))) with true. rewrite andb_true_r.
+  induction (zcode w) as [|x l IHl]; [reflexivity|]. cbn [map forallb]. change (negb (tok_eqb (letter x) (other c))) with true. exact IHl.
+Qed.
+Lemma words_nd a : forallb is_word a = true -> forall c, forallb (fun t => negb (tok_eqb t (other c))) (print a) = true.
+Proof.
+  intros H c. destruct (words_print a H) as (ws & ->). clear H. induction ws as [|w ws IH]; [reflexivity|].
+  cbn [flat_map]. now rewrite forallb_app, IH, nd_wprint.
+Qed.
+
+Lemma match_dtext np : forall args i params pend rest,
+  (i + length args <= 10)%nat -> pendokB pend ->
+  Forall (fun a => depth_after (print a) O = Some O) args -> dargs_ok np i args = true ->
+  match_pattern (ptext0 np i (length args)) false (pend_flag pend) params (pendB pend ++ print_dargs np i args ++ rest)
+  = MOk (rev params ++ pend_list pend ++ map Some (map print args)) rest.
+Proof.
+  induction args as [|a args IH]; intros i params pend rest Hi Hp Hdep Hok.
+  - cbn [length ptext0 seq flat_map app map match_pattern]. change (print_dargs np i []) with (@nil tok). cbn [app].
+    destruct pend as [a0|]; cbn [pend_flag pendB pend_list match_pattern app].
+    + cbn [pendokB] in Hp. rewrite <- app_assoc. cbn [app]. rewrite (read_argument_bg a0 rest Hp). cbn [rev]. reflexivity.
+    + now rewrite app_nil_r.
+  - inversion Hdep as [|x l Ha Hdep']; subst. rewrite dargs_ok_cons in Hok. apply andb_true_iff in Hok as [Hw Hok].
+    cbn [length] in *.
+    change (ptext0 np i (S (length args))) with (hash_tok :: digit_tok i :: dl np i ++ ptext0 np (S i) (length args)).
+    rewrite mp_hash_digit by lia.
+    assert (Hstep : forall r' tail,
+              (if pend_flag pend then let '(x, s') := read_argument (pendB pend ++ tail) in match_pattern r' false true (x :: params) s'
+               else match_pattern r' false true params (pendB pend ++ tail)) =
+              match_pattern r' false true (pend_list pend ++ params) tail).
+    { intros r' tail. destruct pend as [a0|]; cbn [pend_flag pendB pend_list app]; [|reflexivity].
+      cbn [pendokB] in Hp. rewrite <- app_assoc. cbn [app]. now rewrite (read_argument_bg a0 tail Hp). }
+    rewrite Hstep. clear Hstep.
+    assert (Hrev : forall tl, rev (pend_list pend ++ params) ++ tl = rev params ++ pend_list pend ++ tl).
+    { intros tl. destruct pend; cbn [pend_list app rev]; [now rewrite <- app_assoc | reflexivity]. }
+    rewrite print_dargs_cons. pose proof (dl_other np i) as Hdl. destruct (dl np i) as [|d more].
+    + cbn [app].
+      change ((bg :: print a ++ eg :: print_dargs np (S i) args) ++ rest) with (bg :: (print a ++ eg :: print_dargs np (S i) args) ++ rest).
+      rewrite <- app_assoc. cbn [app].
+      replace (bg :: print a ++ eg :: print_dargs np (S i) args ++ rest) with (pendB (Some (print a)) ++ print_dargs np (S i) args ++ rest)
+        by (cbn [pendB app]; rewrite <- app_assoc; reflexivity).
+      change true with (pend_flag (Some (print a))).
+      rewrite (IH (S i) (pend_list pend ++ params) (Some (print a)) rest ltac:(lia) Ha Hdep' Hok).
+      cbn [pend_list map app]. rewrite Hrev. reflexivity.
+    + inversion Hdl as [|x l (c & -> & Hc) Hmore]; subst.
+      rewrite <- !app_assoc. rewrite <- app_comm_cons. rewrite mp_delim by reflexivity.
+      rewrite <- app_comm_cons. rewrite (read_until_spec (other c) (print a) [] _ (words_nd a Hw c)). cbn [rev app].
+      assert (Hlm : forallb lit_ok more = true).
+      { clear -Hmore. induction Hmore as [|t l (c' & -> & _) _ IHm]; [reflexivity|]. cbn [forallb]. now rewrite IHm. }
+      rewrite (lits_consumed more _ _ _ Hlm).
+      change false with (pend_flag None) at 2.
+      change (print_dargs np (S i) args ++ rest) with (pendB None ++ print_dargs np (S i) args ++ rest).
+      rewrite (IH (S i) (Some (print a) :: pend_list pend ++ params) None rest ltac:(lia) I Hdep' Hok).
+      cbn [pend_list map app rev]. rewrite <- app_assoc. cbn [app]. rewrite Hrev. reflexivity.
 Qed.
 
 Lemma definition_invoke_params np body args rest :
-  (1 <= np <= 9)%nat -> length args = np -> Forall (fun a => depth_after (print a) O = Some O) args ->
-  definition_invoke (param_text np) body (print_args args ++ rest)
+  (1 <= np <= 9)%nat -> length args = np -> Forall (fun a => depth_after (print a) O = Some O) args -> dargs_ok np 1 args = true ->
+  definition_invoke (param_text np) body (print_dargs np 1 args ++ rest)
   = match expand_def body false (None :: map Some (map print args)) with Some o => Some (o ++ rest) | None => None end.
 Proof.
-  intros Hnp Hlen Hargs. destruct np as [|m]; [lia|]. destruct args as [|a0 args]; [discriminate Hlen|].
-  inversion Hargs as [|x l H0 Hrest]; subst.
-  unfold definition_invoke, param_text. cbn [seq flat_map app]. cbn [match_pattern].
-  change (is_param hash_tok) with true. cbn iota.
-  change (other (48 + N.of_nat 1)) with (digit_tok 1). rewrite (digit_of_digit 1) by lia.
-  fold (ptext 2 m). cbn [print_args app]. rewrite <- app_assoc. cbn [app].
-  rewrite (match_ptext m 2 [None] a0 args rest H0 Hrest); [|cbn in Hlen; lia|lia].
-  cbn [rev app map]. reflexivity.
+  intros Hnp Hlen Hargs Hok. unfold definition_invoke.
+  assert (Hne : param_text np <> []) by (destruct np as [|m]; [lia|discriminate]).
+  destruct (param_text np) eqn:E; [contradiction|]. rewrite <- E. clear Hne.
+  change (param_text np) with (ptext0 np 1 np). rewrite <- Hlen at 2.
+  change false with (pend_flag None) at 2. change (print_dargs np 1 args ++ rest) with (pendB None ++ print_dargs np 1 args ++ rest).
+  rewrite (match_dtext np args 1 [None] None rest ltac:(lia) I Hargs Hok). cbn [rev app pend_list]. reflexivity.
 Qed.
 
 (* ---- stored meanings of F2 ---- *)
@@ -2744,7 +2890,8 @@ Definition good2c (m : MacroLang.meaning) : Prop :=
   match m_default m with
   | None => (m_n m <= 9)%nat /\
       (((1 <= m_n m)%nat /\ forallb (fun y => fb3_node (m_n m) y BODY_DEPTH) (m_body m) = true) \/ (m_n m = O /\ forallb fa_node (m_body m) = true))
-  | Some d => (S (m_n m) <= 9)%nat /\ forallb is_word d = true /\ forallb (fun y => fb3_node (S (m_n m)) y BODY_DEPTH) (m_body m) = true
+  | Some d => (S (m_n m) <= 9)%nat /\ forallb is_word d = true /\ forallb (fun y => fb3_node (S (m_n m)) y BODY_DEPTH) (m_body m) = true /\
+              undelim (m_n m) = true
   end.
 (* a parameterless \def whose body (handed back as it is) holds definitions with ##k *)
 Definition goodv (m : MacroLang.meaning) : Prop := m_default m = None /\ m_n m = O /\ forallb fv_node (m_body m) = true.
@@ -2753,7 +2900,7 @@ Definition good2 (m : MacroLang.meaning) : Prop := good2c m \/ goodv m.
 Lemma good2_body_W m : good2 m -> forallb w_node (m_body m) = true.
 Proof.
   intros [H|(_ & _ & H)]; [|now apply fv_Wl]. unfold good2c in H. destruct (m_default m).
-  - destruct H as (_ & _ & H). now apply (fb3_Wl (S (m_n m)) BODY_DEPTH).
+  - destruct H as (_ & _ & H & _). now apply (fb3_Wl (S (m_n m)) BODY_DEPTH).
   - destruct H as (_ & [[_ H]|[_ H]]); [now apply (fb3_Wl (m_n m) BODY_DEPTH)|now apply fa_Wl].
 Qed.
 
@@ -2822,7 +2969,7 @@ Proof.
     + eexists _, _. split; [apply print_newcommand|split; reflexivity].
     + eexists _, _. split; [apply print_def|split; destruct global; reflexivity].
   - eexists _, _. split; [apply print_let|split; reflexivity].
-  - eexists _, _. split; [apply print_call|split; reflexivity].
+  - eexists _, _. split; [apply print_dcall|split; reflexivity].
   - eexists _, _. split; [reflexivity|split; reflexivity].
   - cbn [f2_node] in H. apply andb_true_iff in H as [H _]. apply andb_true_iff in H as [Ht _].
     rewrite print_cond. destruct t as [| |a r b|a| | | | |]; try discriminate Ht.
@@ -2879,15 +3026,17 @@ Qed.
 Lemma exec_call2 U B nm m o a r :
   good2c m -> chain_get U B (mname nm) = Some (mean_of m) -> opt_ok o = true -> forallb (forallb fa_node) a = true ->
   length a = m_n m -> (match o, m_default m with Some _, None => false | _, _ => true end) = true -> safe_rest r ->
-  exec (St (esc (mname nm) :: opt_toks o ++ print_args a ++ r) U B) [] (St (print (subst 50 (call_args m o a) (m_body m)) ++ r) U B) /\
+  dargs_ok (m_n m) 1 a = true ->
+  exec (St (esc (mname nm) :: opt_toks o ++ print_dargs (m_n m) 1 a ++ r) U B) [] (St (print (subst 50 (call_args m o a) (m_body m)) ++ r) U B) /\
   forallb f2_node (subst 50 (call_args m o a) (m_body m)) = true.
 Proof.
-  intros Hm Hlk Ho Ha Hlen Hom Hr. pose proof (forallb2_Forall _ _ Ha) as HaF.
+  intros Hm Hlk Ho Ha Hlen Hom Hr Hok. pose proof (forallb2_Forall _ _ Ha) as HaF.
   assert (Hdep : Forall (fun x => depth_after (print x) O = Some O) a).
   { eapply Forall_impl; [|exact HaF]. intros x Hx. apply depth_Wl. now apply fa_Wl. }
   unfold good2c in Hm. unfold mean_of in Hlk. unfold call_args. destruct (m_default m) as [dflt|] eqn:Ed.
   - (* a \newcommand with optional argument *)
-    destruct Hm as (Hn9 & Hdw & Hb).
+    destruct Hm as (Hn9 & Hdw & Hb & Hu).
+    rewrite (print_dargs_plain (m_n m) a 1) by (intros j Hj; apply (undelim_nil _ _ Hu); lia).
     set (oa := match o with Some x => x | None => dflt end).
     assert (Hoa : forallb fa_node oa = true) by (subst oa; destruct o as [x|]; apply words_fa; [exact Ho|exact Hdw]).
     destruct (subst_print3 (oa :: a) (S (m_n m)) (Forall_cons _ Hoa HaF) Hn9 BODY_DEPTH (m_body m) (le_n _) Hb) as [Hx HA].
@@ -2906,7 +3055,7 @@ Proof.
   - destruct o as [x|]; [discriminate Hom|]. cbn [opt_toks app]. destruct Hm as (Hn9 & Hbody).
     destruct (m_n m) as [|k] eqn:En.
     + (* no parameters: the definition is returned as it is *)
-      destruct a; [|discriminate Hlen]. cbn [print_args app].
+      destruct a; [|discriminate Hlen]. change (print_dargs O 1 []) with (@nil tok). cbn [app].
       assert (HA : forallb fa_node (m_body m) = true) by (destruct Hbody as [[H _]|[_ H]]; [lia|exact H]).
       rewrite (subst_A 50 [] _ HA). rewrite (printb_Al _ HA) in Hlk. split; [|now apply fa_f2l].
       eapply (ex_cont O); [|apply ex_refl].
@@ -2916,7 +3065,7 @@ Proof.
       split; [|exact HA].
       eapply (ex_cont O); [|apply ex_refl].
       rewrite (step_macro _ _ (esc (mname nm)) (mname nm) _ _ _ _ eq_refl eq_refl Hlk). cbn [invoke input].
-      rewrite (definition_invoke_params (S k) (printb (m_body m)) a r ltac:(lia) Hlen Hdep), Hx. reflexivity.
+      rewrite (definition_invoke_params (S k) (printb (m_body m)) a r ltac:(lia) Hlen Hdep Hok), Hx. reflexivity.
 Qed.
 
 (* ---- \newcommand{\zq..}[n+1][default]{body} ---- *)
@@ -3034,7 +3183,7 @@ Section Unfold3.
     | Some ma, Some mb =>
         match m_n mb, m_default mb, m_default ma with
         | O, None, None =>
-            forallb fa_node (m_body mb) && (match m_body mb with [] => false | _ => true end) &&
+            undelim (m_n ma) && forallb fa_node (m_body mb) && (match m_body mb with [] => false | _ => true end) &&
             match take_groups (m_n ma) (subst 50 [] (m_body mb)) [] with
             | Some (args, after) =>
                 gsafe f e1 out (NCall a None args :: after) &&
@@ -3063,6 +3212,12 @@ Proof.
     cbn [forallb fa_node] in Hl. apply andb_true_iff in Hl as [Hg Hl].
     destruct (IH l (body :: acc) args after Ht Hl (Forall_cons _ Hg Hacc)) as (E & HA & HB). split; [|split; assumption].
     rewrite <- E. cbn [rev print]. rewrite print_args_app, print_group. cbn [print_args]. rewrite <- !app_assoc. reflexivity.
+Qed.
+Lemma take_len k : forall l acc args after, take_groups k l acc = Some (args, after) -> length args = (length acc + k)%nat.
+Proof.
+  induction k as [|k IH]; intros l acc args after Ht; cbn [take_groups] in Ht.
+  - injection Ht as <- _. rewrite rev_length. lia.
+  - destruct l as [|x l]; [discriminate Ht|]. destruct x; try discriminate Ht. rewrite (IH _ _ _ _ Ht). cbn [length]. lia.
 Qed.
 Lemma Forall_forallb2 {A} (p : A -> bool) ll : Forall (fun l => forallb p l = true) ll -> forallb (forallb p) ll = true.
 Proof. induction 1 as [|l ll Hl _ IH]; [reflexivity|]. cbn [forallb]. now rewrite Hl, IH. Qed.
@@ -3641,7 +3796,7 @@ Proof.
     + eapply exec_trans; [apply exec_plain, plain_wprint|exact Hex].
     + rewrite Htxt, words_text_snoc, text_of_app, (text_of_plain _ (plain_wprint w)). now rewrite app_assoc.
   - (* a definition with ##k *)
-    destruct default; [discriminate Hn|]. cbn [fv_node] in Hn. apply andb_true_iff in Hn as [Hn Hb]. apply andb_true_iff in Hn as [H1 H9].
+    destruct default; [discriminate Hn|]. cbn [fv_node] in Hn. apply andb_true_iff in Hn as [Hn Hb]. apply andb_true_iff in Hn as [H1 H9]. apply andb_true_iff in H1 as [Hu H1].
     apply Nat.leb_le in H1, H9.
     cbn [sbn option_map app] in Hev, Hgs. rewrite (subst_fi0 [] nparams 49 body BODY_DEPTH Hb) in Hev, Hgs.
     destruct (rh_printb nparams body Hb) as [Erh Hfb]. remember (lower 50 body) as body' eqn:Ebody'.
@@ -3655,7 +3810,7 @@ Proof.
     rewrite printb_def. cbn [app]. repeat (rewrite <- app_assoc; cbn [app]).
     pose proof (exec_def2 good2 _ U B global name nparams (printb body) (printb src ++ rest) HR1 H1
                   (depth_Wlb _ (fi_Wl _ _ _ _ Hb) O)) as Hex0. cbv zeta in Hex0.
-    rewrite Erh, rh_ptext in Hex0.
+    rewrite Erh, (rh_ptext _ Hu) in Hex0.
     change (MDef (param_text nparams) (printb body')) with (mean_of m) in Hex0.
     set (st := (if global then add_global else add_local) (mname name) (mean_of m) (St (printb src ++ rest) U B)) in *.
     assert (Hst : exists U0 B0, st = St (printb src ++ rest) U0 B0 /\ length U0 = length U /\
@@ -3719,7 +3874,7 @@ Proof.
     set (m := {| m_n := nparams; m_default := default; m_body := body |}) in *.
     destruct default as [dd|].
     { (* \newcommand{\name}[n+1][dd]{body}: global *)
-      apply andb_true_iff in Hn as [Hn Hbody]. apply andb_true_iff in Hn as [Hn Hdw]. apply andb_true_iff in Hn as [Hgl Hnp].
+      apply andb_true_iff in Hn as [Hn Hbody]. apply andb_true_iff in Hn as [Hn Hdw]. apply andb_true_iff in Hn as [Hgl Hnp]. apply andb_true_iff in Hgl as [Hu Hgl].
       subst global. apply Nat.leb_le in Hnp.
       assert (Hm : good2 m) by (left; unfold good2c; cbn [m_default m m_n m_body]; repeat split; assumption).
       rewrite print_newcommand. cbn [app]. repeat (rewrite <- app_assoc; cbn [app]).
@@ -3781,7 +3936,7 @@ Proof.
     + eapply exec_trans; [exact Hex0|exact Hex].
     + rewrite Htxt, text_of_app. reflexivity.
   - (* call *)
-    cbn [f2_node] in Hn. apply andb_true_iff in Hn as [Ho Ha].
+    cbn [f2_node] in Hn. apply andb_true_iff in Hn as [Hn Hok]. apply andb_true_iff in Hn as [Ho Ha].
     destruct (lookup_frames name (frames (tick e budget))) as [m|] eqn:El;
       [|rewrite (eval_call_none f e out ns budget Hs name opt args El) in Hev; discriminate Hev].
     pose proof (Rfg_good good2 _ _ _ _ _ HR1 El) as Hm.
@@ -3791,20 +3946,20 @@ Proof.
     destruct (Nat.ltb 4000 (length (subst 50 (call_args m opt args) (m_body m)))); [discriminate Hev|].
     apply andb_true_iff in Hgs as [Hg1 Hg2]. apply andb_true_iff in Hg1 as [Hom Hg1].
     destruct (eval f (tick e budget) out (subst 50 (call_args m opt args) (m_body m))) as [e2 out2| |] eqn:Eb; try discriminate Hev.
-    rewrite print_call. cbn [app]. rewrite <- app_assoc.
+    rewrite print_dcall. cbn [app]. rewrite <- app_assoc. rewrite Elen in Hok |- *.
     assert (Hlk : chain_get U B (mname name) = Some (mean_of m)) by (rewrite (Rfg_lookup good2 _ _ _ name HR1), El; reflexivity).
     assert (Hsafe' : safe_rest (print ns ++ rest)) by (apply safe_print; [exact Hns|exact Hsafe]).
     destruct Hm as [Hm|(Ed & En & Hv)].
     2: { (* a parameterless \def handing back a body with ##k: the definitions there are made by \def's own reduction *)
       destruct opt as [x|]; [rewrite Ed in Hom; discriminate Hom|]. rewrite En in Elen. destruct args; [|discriminate Elen].
       unfold call_args in Eb, Hg1. rewrite Ed in Eb, Hg1. unfold mean_of in Hlk. rewrite Ed, En in Hlk.
-      cbn [opt_toks print_args app].
+      cbn [opt_toks app]. change (print_dargs (m_n m) 1 []) with (@nil tok). cbn [app].
       destruct (simV f (m_body m) _ _ _ _ Hv Eb Hg1 U B (print ns ++ rest) HR1 HS) as (T1 & U1 & B1 & Hex1 & HR1' & HS1 & Hlen1 & Htxt1).
       destruct (IH _ _ _ _ _ Hns Hev Hg2 U1 B1 rest HR1' HS1 Hsafe) as (T2 & U2 & B2 & Hex2 & HR2' & HS2 & Hlen2 & Htxt2).
       exists (T1 ++ T2), U2, B2. repeat split; [|exact HR2'|exact (proj1 HS2)|exact (proj2 HS2)|lia|].
       + eapply (exec_trans _ []); [apply (exec_call U B name (printb (m_body m)) _ Hlk)|]. eapply exec_trans; [exact Hex1|exact Hex2].
       + rewrite Htxt2, Htxt1, text_of_app. now rewrite app_assoc. }
-    destruct (exec_call2 U B name m opt args (print ns ++ rest) Hm Hlk Ho Ha Elen Hom Hsafe') as [Hex0 HA].
+    destruct (exec_call2 U B name m opt args (print ns ++ rest) Hm Hlk Ho Ha Elen Hom Hsafe' Hok) as [Hex0 HA].
     destruct (IH _ _ _ _ _ HA Eb Hg1 U B (print ns ++ rest) HR1 HS Hsafe') as (T1 & U1 & B1 & Hex1 & HR1' & HS1 & Hlen1 & Htxt1).
     destruct (IH _ _ _ _ _ Hns Hev Hg2 U1 B1 rest HR1' HS1 Hsafe) as (T2 & U2 & B2 & Hex2 & HR2' & HS2 & Hlen2 & Htxt2).
     exists (T1 ++ T2), U2, B2. repeat split; [|exact HR2'|exact (proj1 HS2)|exact (proj2 HS2)|lia|].
@@ -3816,7 +3971,7 @@ Proof.
     destruct (lookup_frames b (frames (tick e budget))) as [mb|] eqn:Eb0; [|discriminate Hev].
     destruct (m_n mb) as [|k0] eqn:Enb; [|discriminate Hev]. destruct (m_default mb) eqn:Edb; [discriminate Hev|].
     destruct (m_default ma) eqn:Eda; [discriminate Hev|].
-    apply andb_true_iff in Hgs as [Hg0 Hgs]. apply andb_true_iff in Hg0 as [Hfa Hne].
+    apply andb_true_iff in Hgs as [Hg0 Hgs]. apply andb_true_iff in Hg0 as [Hfa Hne]. apply andb_true_iff in Hfa as [Hua Hfa].
     rewrite (subst_A 50 [] _ Hfa) in Hev, Hgs.
     destruct (take_groups (m_n ma) (m_body mb) []) as [[args after]|] eqn:Et; [|discriminate Hev].
     apply andb_true_iff in Hgs as [Hg1 Hg2].
@@ -3827,14 +3982,15 @@ Proof.
     assert (Hne' : print (m_body mb) <> []).
     { destruct (m_body mb) as [|x l]; [discriminate Hne|]. cbn [forallb] in Hfa. apply andb_true_iff in Hfa as [Hx _].
       destruct (safe_first x (fa_f2 x Hx)) as (t0 & l' & E & _). cbn [print]. rewrite E. discriminate. }
+    assert (Hu' : undelim (length args) = true) by (rewrite (take_len _ _ _ _ _ Et); exact Hua).
     assert (HF' : forallb f2_node (NCall a None args :: after) = true).
-    { cbn [forallb f2_node opt_ok]. rewrite (Forall_forallb2 _ _ Hargs). cbn [andb]. now apply fa_f2l. }
+    { cbn [forallb f2_node opt_ok]. rewrite (Forall_forallb2 _ _ Hargs), (dargs_ok_undelim _ Hu'). cbn [andb]. now apply fa_f2l. }
     destruct (IH _ _ _ _ _ HF' Eb Hg1 U B (print ns ++ rest) HR1 HS (safe_print _ _ Hns Hsafe)) as (T1 & U1 & B1 & Hex1 & HR1' & HS1 & Hlen1 & Htxt1).
     destruct (IH _ _ _ _ _ Hns Hev Hg2 U1 B1 rest HR1' HS1 Hsafe) as (T2 & U2 & B2 & Hex2 & HR2' & HS2 & Hlen2 & Htxt2).
     exists (T1 ++ T2), U2, B2. repeat split; [|exact HR2'|exact (proj1 HS2)|exact (proj2 HS2)|lia|].
     + cbn [print_node app]. eapply (exec_trans _ []); [apply (exec_expandafter good2 _ U B a b _ _ HR1 Hlk Hne')|].
       replace (esc (mname a) :: print (m_body mb) ++ print ns ++ rest) with (print (NCall a None args :: after) ++ print ns ++ rest).
-      2: { cbn [print]. rewrite print_call, Eprint. cbn [opt_toks app]. now rewrite <- !app_assoc. }
+      2: { cbn [print]. rewrite (print_call _ _ _ Hu'), Eprint. cbn [opt_toks app]. now rewrite <- !app_assoc. }
       eapply exec_trans; [exact Hex1|exact Hex2].
     + rewrite Htxt2, Htxt1, text_of_app. now rewrite app_assoc.
   - (* conditional *)
@@ -4218,3 +4374,5 @@ Proof.
   - apply abs_pop.
   - apply abs_add_local.
 Qed.
+
+End DL.
